@@ -99,8 +99,7 @@ func matching(ids []string, prefix string) []string {
 
 // judge compares one prefix resolution with the statement: 0 matches -> not-found error type;
 // 1 -> that entity; several -> multiple-match error listing exactly the matching ids.
-// gotId is the id of the returned entity ("" with an error). checkOne=false skips the verdict for
-// the one-match case (ResolvePrefix on planted excerpts, which have no git data to load).
+// gotId is the id of the returned entity ("" with an error).
 func judge(expected []string, gotId string, err error, panicked any) (sig, detail string) {
 	if panicked != nil {
 		return "panic", fmt.Sprintf("panicked: %v", panicked)
